@@ -47,6 +47,9 @@ def conversions():
     C.append(("rt bytes(string(b))", call("bytes", "bytes", call("string", "string", V("bytes"))), "bytes"))
     C.append(("rt timestamp(string(t))", call("timestamp", "ts", call("string", "string", V("ts"))), "ts-whole"))
     C.append(("rt duration(string(d))", call("duration", "dur", call("string", "string", V("dur"))), "dur-whole"))
+    # the same law for timestamps that carry the zone they were written in (a bound timestamp is always UTC)
+    C.append(("rt timestamp(string(timestamp(text)))", call("timestamp", "ts", call("string", "string", call("timestamp", "ts", V("string")))), "ts-text-whole"))
+    C.append(("rt duration(string(duration(text)))", call("duration", "dur", call("string", "string", call("duration", "dur", V("string")))), "dur-text-whole"))
     C.append(("rt int(double(i))", call("int", "int", call("double", "double", V("int"))), "int"))
     C.append(("rt uint(int(u))", call("uint", "uint", call("int", "int", V("uint"))), "uint"))
     C.append(("rt int(uint(i))", call("int", "int", call("uint", "uint", V("int"))), "int"))
@@ -72,6 +75,7 @@ def conversions():
 SRC_TYPE = {
     "int": "int", "uint": "uint", "double": "double", "double-finite": "double", "string": "string", "bytes": "bytes", "ts": "ts", "ts-whole": "ts", "dur": "dur",
     "dur-whole": "dur", "int-text": "string", "uint-text": "string", "double-text": "string", "junk-text": "string", "ts-text": "string", "dur-text": "string",
+    "ts-text-whole": "string", "dur-text-whole": "string",
 }
 
 JUNK = ["", "abc", "x1", "--", "one", "NaN!", " ", "1.2.3", "12abc", "1e", "e5", "0x", "٣", "１２", "\x00", "T", "P1D", "ss", "h", "-", "+", ".", "1..s", "true"]
@@ -124,9 +128,20 @@ def draw(rnd, kind):
         return ("string", rnd.choice([repr(d), "%.3f" % d if abs(d) < 1e15 else repr(d), "%e" % d, str(int(d)) if abs(d) < 1e18 else "1e300", ".5", "5.", "1e5", "-1E-5"]))
     if kind == "junk-text":
         return ("string", rnd.choice(JUNK))
-    if kind == "ts-text":
-        us = MV.rand_ts(rnd, whole_seconds=rnd.random() < 0.6)
-        off = rnd.choice([0, 0, 330, -480, 840, -840, 1, -1, 59])
+    if kind == "dur-text-whole":
+        sign = rnd.choice(["", "", "-"])
+        h, m, sec = rnd.choice([0, 0, 1, 23, 24, 100, 87660000 - 1]), rnd.choice([0, 1, 59, 60, 61]), rnd.choice([0, 1, 59, 60, 3600, 86400])
+        parts = [f"{v}{u}" for v, u in ((h, "h"), (m, "m"), (sec, "s")) if v or rnd.random() < 0.3] or ["0s"]
+        return ("string", sign + "".join(parts))
+    if kind in ("ts-text", "ts-text-whole"):
+        us = MV.rand_ts(rnd, whole_seconds=kind == "ts-text-whole" or rnd.random() < 0.6)
+        if kind == "ts-text-whole" and rnd.random() < 0.3:
+            from .. import civil
+
+            y = rnd.choice([1, 9, 99, 100, 999, 1000, 1600, 1900, 2000, 2100, 9999])
+            us = (civil.days_from_civil(y, rnd.choice([1, 2, 3, 12]), rnd.choice([1, 28, 29 if y % 4 == 0 and (y % 100 or y % 400 == 0) else 28])) * 86400 + rnd.choice([0, 1, 1799, 1800, 3599, 43200, 86399])) * 10**6
+            us = max(MV.TS_MIN_US, min(MV.TS_MAX_US - 999999, us))
+        off = rnd.choice([0, 0, 330, -480, 840, -840, 1, -1, 59, -59, -30, 30, -210, -570, 345, 765, -90, rnd.randint(-840, 840)])
         if not (MV.TS_MIN_US <= us + off * 60 * 10**6 <= MV.TS_MAX_US):
             off = 0
         return ("string", MV.ts_text(us, off))
@@ -288,7 +303,7 @@ def run(ctx):
     for j in range(n):
         if ctx.expired():
             break
-        label, node, kind = CONV[j % len(CONV)] if rnd.random() < 0.7 else rnd.choice(CONV[:7])
+        label, node, kind = CONV[j % len(CONV)] if rnd.random() < 0.7 else rnd.choice(CONV[:9])
         x = draw(rnd, kind)
         check(acc, label, node, x, cached=rnd.random() < 0.9)
         if j % 40 == 0:
